@@ -22,7 +22,7 @@ BUDGETS = {
     "C07": {"quick": {"procs": 32, "runs": 5}, "thorough": {"procs": 192, "runs": 40}},
     "C09": {"quick": {"procs": 32, "runs": 6}, "thorough": {"procs": 256, "runs": 60}},
     "C10": {"quick": {"procs": 32, "runs": 12}, "thorough": {"procs": 192, "runs": 100}},
-    "C11": {"quick": {"procs": 32, "runs": 5}, "thorough": {"procs": 192, "runs": 40}},
+    "C11": {"quick": {"procs": 32, "runs": 10}, "thorough": {"procs": 192, "runs": 60}},
     "C12": {"quick": {"procs": 32, "runs": 10}, "thorough": {"procs": 256, "runs": 80}},
     "C13": {"quick": {"procs": 32, "runs": 8}, "thorough": {"procs": 192, "runs": 80}},
     "C14": {"quick": {"procs": 32, "runs": 15}, "thorough": {"procs": 256, "runs": 120}},
@@ -144,5 +144,19 @@ META = {
         "faults: cache_knob (capacity below the number of distinct keys, so the eviction path runs), relabel.  The scores themselves are pure functions; "
         "the simulated part is the cache's state across the call history.",
         ["unobserved_parent_configuration", "declared_state_unobserved", "equivalent_pair", "cache_eviction_possible"],
+    ),
+    "C11": _m(
+        "one evaluation = one simulated run: 2..4 (5 thorough) discrete columns of 8..120 rows drawn from a PRNG-chosen network, then 1..3 searches: "
+        "HillClimbSearch.estimate over an option swarm (score in {k2,bdeu,bic,aic} as name or scorer instance, start DAG, fixed / black / white lists, max_indegree, "
+        "tabu_length incl. 0, epsilon, max_iter, use_cache with the internal LRU capacity forced to {1,3,10000}); ExhaustiveSearch (<=4 columns); TreeSearch "
+        "(chow-liu / tan, weights in {mutual_info, normalized_mutual_info, a callable}, 1..3 estimate() calls on one estimator object) under the SimParallel stub.  "
+        "Oracle with a reference scorer (closed forms from counts): result is a DAG on exactly the columns, fixed edges kept, no black-listed / only white-listed "
+        "additions, in-degree bound, score >= score(start + fixed), with tabu_length=0 and a non-binding max_iter no legal single-edge move gains >= epsilon "
+        "(exhaustive enumeration of moves); exhaustive result attains the maximum over all DAGs; trees are spanning, directed away from the root, of maximum total "
+        "weight on the reference mutual-information matrix (only data with strictly positive pairwise weights).  Hill climbing's tie-breaking follows set iteration "
+        "order, so labels x hash seed explore different climbs.  Non-trivial = at least one checked search.",
+        "faults: option_swarm, cache_knob (eviction path of the score cache inside the search), worker_batching / worker_reorder / worker_isolation (TreeSearch), "
+        "relabel",
+        ["hill_moved", "hill_local_optimum_checked", "tree_estimator_reused"],
     ),
 }
